@@ -79,6 +79,15 @@ CHECKS = {
             "Durations come from {0,1,2,3,5}; budgets from {1,2,3,4,7}; larger sets/scripts are not explored. Budget "
             "accounting itself (whether a task due exactly at the budget edge runs) is not part of the statement.",
             "DESIGN.md section 4, C18"),
+    "C14": ("model_checking",
+            "explicit-state BFS over key press/release, strobe writes, scan ticks and key-input reads on the real Python and "
+            "Rust KeyboardMatrix against a reference debounce/repeat automaton, plus scripted long runs and the KEYI gating matrix",
+            "All histories up to the stated depth over 3 colliding keys (shared row, shared column) and 5 strobe values, "
+            "both column polarities and several debounce/repeat settings, are replayed on each real matrix; event streams, "
+            "key-input lower/upper bounds, FIFO capacity/drop-oldest and per-key event order are judged on every transition.",
+            "Depth-bounded (5/7 Python, 4/6 Rust), with scripted runs covering the 24-tick repeat delay; the Rust matrix only "
+            "exposes the press threshold; KEYI gating is checked at write_fifo_to_memory / _scan_keyboard_per_instruction.",
+            "DESIGN.md section 4, C14"),
     "C17": ("exploration",
             "complete comparison of a finite configuration space: all 256 opcode rows and every duplicated constant, "
             "private Rust tables observed behaviourally through LlamaExecutor::execute",
